@@ -329,3 +329,13 @@ func init() {
 		externals[k] = v
 	}
 }
+
+func init() {
+	externals["regexp.QuoteMeta"] = func(fr *frame, a []value) value {
+		s, ok := a[0].(string)
+		if !ok {
+			panic(engineError{"regexp.QuoteMeta of a symbolic string"})
+		}
+		return regexp.QuoteMeta(s)
+	}
+}
